@@ -263,14 +263,17 @@ def gen_cases(rng, tier):
                 if ok: q = {'filters': fs, 'form': 'split', 'groups': g}
                 else: q = {'filters': fs[:len(ks)], 'form': q['form']}
         cases.append({'kvs': kvs, 'q': q, 'fkey': rng.choice(names + (['z'] if rng.random() < 0.03 else [])), 'kind': 'random'})
-    # sizes far beyond 0-6 rows: 101-250 rows, one or two conditions selecting a proper subset / nothing / everything
-    for _ in range(12 if tier == 'quick' else 200):
-        n = rng.randrange(101, 251); ka, kb = rng.choice(NAME_PAIRS)
+    # sizes far beyond 0-6 rows: 101-200 rows, one or two conditions selecting a proper subset / nothing / everything
+    big = []
+    for _ in range(10 if tier == 'quick' else 200):
+        n = rng.randrange(101, 201); ka, kb = rng.choice(NAME_PAIRS)
         kvs = [[ka, {'L': [rng.choice([i % 7, None, {'nan': 0}, {'f': 2 * (i % 5)}, {'s': 'ab' if i % 3 else 'b'}]) for i in range(n)]}], [kb, {'L': [i % 3 for i in range(n)]}]]
         c1 = rng.choice([{'v': 3}, {'v': None}, {'v': {'nan': 9}}, {'l': [0, 1, 2]}, {'l': [], 'as': 'tuple'}, {'re': 'a'}, {'l': [0, 1, 2, 3, 4, 5, 6, None, {'nan': 0}, {'s': 'ab'}, {'s': 'b'}]}])
         fs = [[ka, c1]] + ([[kb, {'v': rng.choice([0, 1, 5])}]] if rng.random() < 0.5 else [])
         q = rng.choice([{'filters': fs, 'form': 'kw'}, {'filters': fs, 'form': 'split', 'groups': [len(fs) - 1, 1, None]}, {'f': ['eq', ka, kb]}, {'f': ['isnone', ka]}])
-        cases.append({'kvs': kvs, 'q': q, 'fkey': kb, 'kind': 'big'})
+        big.append({'kvs': kvs, 'q': q, 'fkey': kb, 'kind': 'big'})
+    step_ = max(1, len(cases) // (len(big) + 1))            # spread over the cases files (slow inside Coq)
+    for j, b in enumerate(big): cases.insert(min(len(cases), (j + 1) * step_ + j), b)
     # small scope: every table of <= 3 rows over {None, 1, NaN0} (one filtered column + an index column) x every single condition
     vals = [None, 1, {'nan': 0}]
     conds = [{'v': v} for v in vals + [{'f': 2}, FRESH_NAN, 2]] + [{'l': list(l)} for k in range(3) for l in itertools.product(vals + [FRESH_NAN], repeat=k)] + [{'re': ''}]
